@@ -35,6 +35,55 @@ func (d Stamp) MarshalJSON() ([]byte, error) { return time.Time(d).MarshalJSON()
 func (d *Stamp) UnmarshalJSON(b []byte) error { return (*time.Time)(d).UnmarshalJSON(b) }
 `
 
+// subShapeWrapper is what gounions generates when it is run on the sub package (the generator
+// documents that wrappers of unions from other packages are expected to exist there).
+const subShapeWrapper = `type ShapeWrapper struct {
+	Data Shape
+}
+
+func (out *ShapeWrapper) UnmarshalJSON(src []byte) error {
+	var wr struct {
+		Kind string
+		Data json.RawMessage
+	}
+	err := json.Unmarshal(src, &wr)
+	if err != nil {
+		return err
+	}
+	switch wr.Kind {
+	case "Dot":
+		var data Dot
+		err = json.Unmarshal(wr.Data, &data)
+		out.Data = data
+	case "Line":
+		var data Line
+		err = json.Unmarshal(wr.Data, &data)
+		out.Data = data
+	default:
+		panic("exhaustive switch")
+	}
+	return err
+}
+
+func (item ShapeWrapper) MarshalJSON() ([]byte, error) {
+	type wrapper struct {
+		Data any
+		Kind string
+	}
+	var wr wrapper
+	switch data := item.Data.(type) {
+	case Dot:
+		wr = wrapper{Kind: "Dot", Data: data}
+	case Line:
+		wr = wrapper{Kind: "Line", Data: data}
+	default:
+		panic("exhaustive switch")
+	}
+	return json.Marshal(wr)
+}
+
+`
+
 func slotAlts() []slotAlt {
 	l := []slotAlt{
 		{label: "int", typ: "int"},
@@ -232,7 +281,8 @@ func TypesWith(c explore.Chooser, opt TypesOpt) *prog.Program {
 	}
 	fmt.Fprintf(&sub, "type Info struct {\n\tLabel string\n\tKind  Kind\n%s}\n\n", subSlot)
 	if second == "same-name-in-sub" {
-		sub.WriteString("type SubShape = Shape\n\ntype Shape interface {\n\tisShape()\n}\n\ntype Dot struct {\n\tX int\n}\n\nfunc (Dot) isShape() {}\n\ntype Line struct {\n\tLen int\n}\n\nfunc (Line) isShape() {}\n\n")
+		sub.WriteString(subShapeWrapper)
+		sub.WriteString("type Shape interface {\n\tisShape()\n}\n\ntype Dot struct {\n\tX int\n}\n\nfunc (Dot) isShape() {}\n\ntype Line struct {\n\tLen int\n}\n\nfunc (Line) isShape() {}\n\n")
 	}
 	if embedded == "from-sub" {
 		sub.WriteString("type Base struct {\n\tCreated int\n\tOwner   string\n}\n\n")
@@ -323,7 +373,7 @@ func TypesWith(c explore.Chooser, opt TypesOpt) *prog.Program {
 		methods = append(methods, "func (Circle) isShade() {}", "func (Dark) isShade() {}")
 		secondField = "\tShd Shade\n"
 	case "same-name-in-sub":
-		secondField = "\tSubSh subpkg.SubShape\n"
+		secondField = "\tSubSh subpkg.Shape\n"
 	case "disjoint":
 		add("type Animal interface {\n\tisAnimal()\n}")
 		add("type Cat struct {\n\tLives int\n}")
@@ -426,15 +476,20 @@ func TypesWith(c explore.Chooser, opt TypesOpt) *prog.Program {
 	}
 
 	finish := func(pkgName string, body string, isSub bool) string {
-		// renames
+		// renames (root package only: the sub package keeps its own names)
+		body = strings.ReplaceAll(body, "subpkg.Shape", "subpkg.@SH@")
 		for from, to := range rename {
+			if isSub {
+				break
+			}
 			body = regexp.MustCompile(`\b`+from+`\b`).ReplaceAllString(body, to)
 		}
+		body = strings.ReplaceAll(body, "subpkg.@SH@", "subpkg.Shape")
 		if subName != "subpkg" {
 			body = regexp.MustCompile(`\bsubpkg\.`).ReplaceAllString(body, subName+".")
 		}
 		var imps []string
-		for q, path := range map[string]string{"time.": "time", "sql.": "database/sql", "fmt.": "fmt"} {
+		for q, path := range map[string]string{"time.": "time", "sql.": "database/sql", "fmt.": "fmt", "json.": "encoding/json"} {
 			if regexp.MustCompile(`\b` + regexp.QuoteMeta(q)).MatchString(body) {
 				imps = append(imps, fmt.Sprintf("\t%q", path))
 			}
